@@ -186,6 +186,17 @@ def run(report: Report, tier, seed):
     for b in tcr[:1]:
         p0 = next(p for p in b["problems"] if p.startswith("exception "))
         report.violation(Violation(key=f"crash:{p0.split()[1].rstrip(':')}:template-constants", what=f"template constants {b['job']}: {p0}"[:300], replay={"kind": "template", "job": b["job"]}, confirmed_native=True))
+    # full slot occupancy (the slot allocator's search for a vacant id)
+    from . import c10 as _c10
+    oj = _c10.occupancy_jobs(tier)
+    with ProcessPoolExecutor(max_workers=16) as ex:
+        orr = list(ex.map(_c10.occupancy_case, oj, chunksize=2))
+    ocr = [r for r in orr if r["crash"]]
+    report.bounded.append(Bounded(function="pyteal.compileTeal at full slot occupancy (requested + automatic slots around 256)", contract="TEAL or a PyTeal error, no other exception",
+                                  bound=f"{len(_c10.OCCUPANCY)} splits x versions / optimiser", cases=len(orr), distinct_nontrivial=len(_c10.OCCUPANCY), failures=len(ocr)))
+    for b in ocr[:1]:
+        report.violation(Violation(key=f"crash:{b['crash']['type']}:slot-occupancy", what=f"{b['job'][0]} requested + {b['job'][1]} automatic slots at v{b['job'][2]}: {b['crash']['type']}: {b['crash']['message']}"[:300],
+                                   replay={"kind": "occupancy", "job": b["job"]}, confirmed_native=True))
     # misused builders / ill-formed programs
     from . import misuse
     mj = misuse.jobs()
@@ -269,6 +280,11 @@ def replay(data):
         c, f = ir_native.check_flatten(3)
         print(f[:1])
         return 1 if f else 0
+    if r["kind"] == "occupancy":
+        from . import c10 as _c10
+        out = _c10.occupancy_case(tuple(r["job"]))
+        print(out)
+        return 1 if out["crash"] else 0
     if r["kind"] == "misuse":
         from . import misuse
         out = misuse.case(tuple(r["job"]))
